@@ -30,6 +30,21 @@ CLAIMED = {
              "functional model cannot express aliasing). Modelled not verified: middleware/*.py.",
         technique="Coq proof (induction over header/mount/completion lists) + in-Coq differential correspondence",
     ),
+    "C16": dict(
+        text="Coq theorems: the two EventWrapper implementations (asyncio clears its event in place, trio replaces the event object) wake "
+             "the same tasks at the same operations for every operation sequence that respects the discipline by which hypercorn uses "
+             "them (clear only when no task is waiting), and differ without it (witness); the idle-timer logic is one model for both "
+             "TCPServer classes (C07).  Tied to the code by running the real EventWrapper classes against their models, and the "
+             "property itself is checked by differential execution: the same timed client script and application behaviour on the real "
+             "asyncio and trio TCPServer / TaskGroup / WorkerContext under virtual time, every observation compared for equality.",
+        design="7/C16",
+        note="Trusted: Coq kernel + vm_compute, harness (rworker.py, c16.py). The equality of whole sessions is established by sampling "
+             "(differential execution), not proved: the per-worker classes are thin layers over two different runtimes whose "
+             "scheduling and cancellation semantics are not modelled; events that fall on the same virtual instant are ordered by "
+             "each runtime's scheduler and are avoided by the generator (incommensurable delays); HTTP/2 frames are compared per "
+             "stream.  Open known finding F42 (a final 400 for unprocessed input differs between the workers).",
+        technique="Coq proof (bisimulation of the two event semantics under a usage discipline) + in-Coq correspondence + differential execution of both real workers under virtual time",
+    ),
     "C17": dict(
         text="Coq theorems about a model of WSGIWrapper: the body limit is exact for every segmentation of the body, "
              "the environ (path split by root_path, CONTENT_*/HTTP_* with repeated headers comma-joined in order) for "
